@@ -24,6 +24,6 @@ PROP = dict(
         U("long", ".", "^TestVerifC18_LongRanges$", 4000, 200000, sq=2, sth=6),
         U("tov", ".", "^TestVerifC18_TimeOfView$", 0, 0, sq=1, sth=1, rapid=False),
         U("minmax", ".", "^TestVerifC18_MinMaxViews$", 6000, 200000, sq=1, sth=4),
-        U("api", "./server", "^(TestVerifC18_API|TestVerifWitness_(D21|DT2)_API)$", 240, 6000, sq=4, sth=8),
+        U("api", "./server", "^(TestVerifC18_API|TestVerifWitness_(D21|DT2)_API)$", 240, 3000, sq=4, sth=10),
     ],
 )
